@@ -596,6 +596,107 @@ theorem thaw_some {w w' : World} {a : Acct} {pid : Nat} (h : thaw w a pid = some
               subst h
               exact ⟨amt, g, hamt, hg, rfl, rfl⟩
 
+/-! ### the `$tdpos` methods reach the token bucket through exactly one Lock / UnLock by `$tdpos` on the INITIATOR -/
+
+theorem nominate_some {w w' : World} {i c : Acct} {n : Int} {auth : Bool} {h : Int}
+    (hh : nominate w i c n auth h = some w') :
+    ∃ s g, tdSnapAt w h = some s ∧ 0 < n ∧ tdAuth i c auth = true ∧
+      lock w.gov .tdpos i n (some .tdpos) = some g ∧ aget s.nom c = none ∧
+      w' = { w with gov := g, td := { w.td with nom := aput s.nom c (i, n) } } := by
+  unfold nominate at hh
+  split at hh
+  · contradiction
+  · rename_i s hs
+    split at hh
+    · contradiction
+    · rename_i hn
+      split at hh
+      · contradiction
+      · rename_i ha
+        split at hh
+        · contradiction
+        · rename_i g hg
+          split at hh
+          · contradiction
+          · rename_i hc
+            simp only [Option.some.injEq] at hh
+            exact ⟨s, g, hs, by omega, by simpa using ha, hg, hc, hh.symm⟩
+
+theorem revokeNominate_some {w w' : World} {i c : Acct} {h : Int} (hh : revokeNominate w i c h = some w') :
+    ∃ s ballot g, tdSnapAt w h = some s ∧ aget s.nom c = some (i, ballot) ∧
+      unlock w.gov .tdpos i ballot (some .tdpos) = some g ∧
+      w' = { w with gov := g, td := { w.td with nom := aerase s.nom c } } := by
+  unfold revokeNominate at hh
+  split at hh
+  · contradiction
+  · rename_i s hs
+    split at hh
+    · contradiction
+    · rename_i nominator ballot hc
+      split at hh
+      · contradiction
+      · rename_i hi
+        split at hh
+        · contradiction
+        · rename_i g hg
+          simp only [Option.some.injEq] at hh
+          have hi' : nominator = i := by
+            apply Classical.byContradiction
+            intro hne
+            exact hi hne
+          subst hi'
+          exact ⟨s, ballot, g, hs, hc, hg, hh.symm⟩
+
+theorem tdVote_some {w w' : World} {i c : Acct} {n : Int} {h : Int} (hh : tdVote w i c n h = some w') :
+    ∃ s g, tdSnapAt w h = some s ∧ 0 < n ∧ lock w.gov .tdpos i n (some .tdpos) = some g ∧
+      (aget s.nom c).isSome = true ∧
+      w' = { w with
+              gov := g
+              td := { w.td with
+                        votes := aput w.td.votes c
+                          (aput ((aget s.votes c).getD []) i ((aget ((aget s.votes c).getD []) i).getD 0 + n)) } } := by
+  unfold tdVote at hh
+  split at hh
+  · contradiction
+  · rename_i s hs
+    split at hh
+    · contradiction
+    · rename_i hn
+      split at hh
+      · contradiction
+      · rename_i g hg
+        split at hh
+        · contradiction
+        · rename_i r hc
+          simp only [Option.some.injEq] at hh
+          exact ⟨s, g, hs, by omega, hg, by simp [hc], hh.symm⟩
+
+theorem tdRevokeVote_some {w w' : World} {i c : Acct} {n : Int} {h : Int} (hh : tdRevokeVote w i c n h = some w') :
+    ∃ s g vm v, tdSnapAt w h = some s ∧ 0 < n ∧ unlock w.gov .tdpos i n (some .tdpos) = some g ∧
+      aget s.votes c = some vm ∧ aget vm i = some v ∧ n ≤ v ∧
+      w' = { w with gov := g, td := { w.td with votes := aput w.td.votes c (aput vm i (v - n)) } } := by
+  unfold tdRevokeVote at hh
+  split at hh
+  · contradiction
+  · rename_i s hs
+    split at hh
+    · contradiction
+    · rename_i hn
+      split at hh
+      · contradiction
+      · rename_i g hg
+        split at hh
+        · contradiction
+        · rename_i vm hvm
+          split at hh
+          · contradiction
+          · rename_i v hv
+            split at hh
+            · contradiction
+            · rename_i hle
+              simp only [Option.some.injEq] at hh
+              exact ⟨s, g, vm, v, hs, by omega, hg, hvm, hv, by omega, hh.symm⟩
+
 /-- every call keeps the genesis configuration and the invariant -/
 theorem step?_good {w w' : World} {c : Call} (h : step? w c = some w') (hg : Good w.pre w.gov) :
     w'.pre = w.pre ∧ Good w.pre w'.gov := by
@@ -647,6 +748,26 @@ theorem step?_good {w w' : World} {c : Call} (h : step? w c = some w') (hg : Goo
       subst h
       exact ⟨(releases_trigger w pid).pre, (releases_trigger w pid).good hg⟩
     · contradiction
+  | newBlock =>
+    simp only [step?, Option.some.injEq] at h
+    subst h
+    exact ⟨rfl, hg⟩
+  | nominate i c n auth hgt =>
+    simp only [step?] at h
+    obtain ⟨s, g, _, _, _, hl, _, rfl⟩ := nominate_some h
+    exact ⟨rfl, good_lock hg hl⟩
+  | revokeNominate i c hgt =>
+    simp only [step?] at h
+    obtain ⟨s, ballot, g, _, _, hl, rfl⟩ := revokeNominate_some h
+    exact ⟨rfl, good_unlock hg hl⟩
+  | tdVote i c n hgt =>
+    simp only [step?] at h
+    obtain ⟨s, g, _, _, hl, _, rfl⟩ := tdVote_some h
+    exact ⟨rfl, good_lock hg hl⟩
+  | tdRevokeVote i c n hgt =>
+    simp only [step?] at h
+    obtain ⟨s, g, vm, v, _, _, hl, _, _, _, rfl⟩ := tdRevokeVote_some h
+    exact ⟨rfl, good_unlock hg hl⟩
 
 theorem step_good (w : World) (c : Call) (hg : Good w.pre w.gov) :
     (step w c).pre = w.pre ∧ Good w.pre (step w c).gov := by
